@@ -22,6 +22,8 @@
    "alts"   pictures' alternative texts: (format x name x title x description), each absent / empty / blank / text.
    "members" archive members: (zip / tar / tgz / 7z) x member name form (plain, nested, dotted, unicode, absolute) x
             archive path form; TLC checks the member-path law (Inv_Member).
+   "picexts" picture parts with extensions outside the extractors' tables (svg, webp, jp2, none, upper case, unknown).
+   "multis" archives with 2..3 members: every result reports its own member's path.
    "structs" heading structures of DOCX / ODT: every sequence of <= MaxStruct items over h1 h2 h3 paragraph empty table,
             with and without pictures.
    "degens" degenerate-but-accepted inputs (no html part, no body, empty sheet, zero pages, ...) x every path form.
@@ -163,6 +165,13 @@ MemberForms == << M(FALSE, <<>>, "s", <<"txt">>), M(FALSE, <<"d", "d">>, "s", <<
 ArchivePathForms == {1, 2, 3, 4, 5, 6}       \* indices into Forms: None, relative, relative in missing folders, absolute, nx, unicode
 Members == { [arch |-> a, member |-> k, form |-> f] : a \in {"zip", "tar", "tgz", "7z"}, k \in DOMAIN MemberForms, f \in ArchivePathForms }
 
+(* ---- picture parts whose file extension is outside the extractors' content-type tables ---- *)
+PicExtKinds == {"svg", "webp", "jp2", "none", "upper", "unknown", "dotted"}
+PicExts == { [fmt |-> f, ext |-> e] : f \in (AltFormats \cup {"epub"}) \cap Formats, e \in PicExtKinds }
+
+(* ---- archives with several members: the member rule holds for every result ---- *)
+MultiMembers == { [arch |-> a, n |-> n, form |-> f] : a \in {"zip", "tar", "tgz", "7z"}, n \in {2, 3}, f \in ArchivePathForms }
+
 (* ---- heading structures of the flow formats ---- *)
 \* every sequence of <= MaxStruct items over heading levels 1..3, body paragraph, empty paragraph, table -- including
 \* a trailing heading, trailing empty paragraphs, no level-1 heading, no text before the first heading -- with and
@@ -176,7 +185,9 @@ Structs == { [fmt |-> f, items |-> q, pics |-> b] : f \in {"docx", "odt"} \cap F
 DegenInputs == {"mhtml-nohtml", "mhtml-onlyimage", "eml-nobody", "eml-onlyattachment", "xlsx-emptysheet", "ods-emptysheet",
                 "pdf-zeropages", "pdf-emptypage", "docx-nobody", "odt-nobody", "pptx-noslides", "odp-nopages",
                 "html-empty", "html-onlyhead", "rtf-empty", "txt-newline", "csv-empty", "json-empty", "md-blank",
-                "epub-nochapters", "zip-emptymember", "mbox-onemessage-nobody"}
+                "epub-nochapters", "zip-emptymember", "mbox-onemessage-nobody",
+                \* inputs that yield MORE THAN ONE result: the path clause holds for every one of them
+                "mbox-two", "mbox-three"}
 Degens == { [input |-> d, form |-> k] : d \in DegenInputs, k \in DOMAIN Forms }
 
 (* ---- names of the containers of units ---- *)
@@ -189,6 +200,9 @@ Names == { [fmt |-> f, which |-> w, name |-> k] : f \in {"ods", "odp", "odg", "x
 Init ==
     CASE Mode = "members" -> c \in { [kind |-> "member", arch |-> a.arch, member |-> MemberForms[a.member], mform |-> a.member,
                                         path |-> Forms[a.form], form |-> a.form] : a \in Members }
+      [] Mode = "picexts" -> c \in { [kind |-> "picext", x |-> a] : a \in PicExts }
+      [] Mode = "multis" -> c \in { [kind |-> "multi", arch |-> a.arch, n |-> a.n, path |-> Forms[a.form], form |-> a.form,
+                                     members |-> [i \in 1..a.n |-> MemberForms[((i + a.form) % Len(MemberForms)) + 1]]] : a \in MultiMembers }
       [] Mode = "structs" -> c \in { [kind |-> "struct", x |-> a] : a \in Structs }
       [] Mode = "degens" -> c \in { [kind |-> "degen", input |-> a.input, form |-> a.form, path |-> Forms[a.form]] : a \in Degens }
       [] Mode = "names" -> c \in { [kind |-> "name", x |-> a] : a \in Names }
